@@ -51,8 +51,12 @@ PROPS = {
     "C09": dict(level="other", bounded=True, technique="bounded seeded exploration with an independent bar-grid and piano-roll oracle", explanation="B: bar counts, bar lengths, carried signature/key, coverage, sounding set, inputs unchanged.", assumptions=[FLOAT], note="not yet under contract"),
     "C10": dict(level="other", bounded=True, technique="contract-based deductive verification of RelativeSequence.pad (used for the exact bar length) + bounded grid over (sequence, signature, key)",
                 explanation="U: pad makes the duration max(old, n) and touches no event. B: Bar construction over a grid of durations / signatures / signature content, exact length in rationals, copy.", assumptions=[FLOAT, INTS], note="Bar.__init__ itself is bounded only so far"),
-    "C11": dict(level="other", bounded=True, technique="bounded operation histories with type checks (deductive tag layer not built yet; value-level contracts of pad / conversions assume integer ticks)",
-                explanation="B: seeded histories over 15 operations on 1-2 tracks of unequal length; every time value of both views type-checked after every step; token rendering checked by a regular expression.", assumptions=[], note="tag layer not built yet"),
+    "C11": dict(level="other", bounded=True, tags=True, technique="modular type-tag analysis (int/float/none lattice) over all of scoda/ with per-function parameter/result tag contracts checked at every call site + bounded operation histories",
+                explanation="F/U: every place in scoda/ where a tick value is produced (writes to .time, Message(time=...), tick arguments of pad / cutoff / split / scale / Bar / quantise*, ticks rendered into tokens) is an obligation "
+                            "'the value is int-tagged', found by a syntactic scan on every run and discharged by flow-sensitive abstract evaluation in the finite tag lattice; callers are checked against parameter-tag contracts. "
+                            "B: seeded histories over 15 operations with type checks of both views after every step.",
+                assumptions=["A: CPython typing facts: / and float() give float; //, %, int(), round(x), len() give int; int op int is int", "history closure is the usual invariant argument (every operation preserves ticks_int)"],
+                note="a refuted tag obligation has no model of its own; the failing input comes from the bounded tier"),
     "C12": dict(level="other", bounded=True, technique="bounded round trips through a real temporary MIDI file (mido is the assumed codec)", explanation="B: save/load round trips of generated sequence lists; notes and signatures in force compared by an independent oracle.",
                 assumptions=["A: mido encodes and decodes the track messages faithfully"], note="not yet under contract; known finding D16"),
     "C13": dict(level="other", bounded=True, technique="bounded differential test against exact rational positions (fractions.Fraction) on files written directly with mido",
